@@ -755,6 +755,57 @@ func runSubstCode() {
 		c := fcase{Kind: "code128", Vals: s.vals, Reader: "code128", Scale: 2, Path: "image"}
 		symbolCase(l, nil, &c)
 	})
+	// very long symbols: the weighted sum start + sum(k * code_k) itself passes 2^31 after about 6760
+	// and 2^32 after about 9560 characters '~' (value 94) - a sum kept in a 32-bit integer, signed or
+	// not, wraps there, and 2^32 is not a multiple of 103
+	lens := []int{6800, 9600}
+	subPos := func(n int) []int { return []int{1, 40, n} }
+	subVals := func(orig int) []int { return []int{orig - 1, orig - 2, 0, 50, 93, 95, 101} }
+	if !chk.Quick() {
+		lens = []int{6700, 6800, 9500, 9600, 9700, 13600}
+		subPos = func(n int) []int { return []int{1, 2, 40, 102, 103, n / 2, n - 1, n, n + 1} }
+		subVals = func(orig int) []int {
+			var v []int
+			for x := 0; x <= 102; x++ {
+				if x != orig {
+					v = append(v, x)
+				}
+			}
+			return v
+		}
+	}
+	type vjob struct{ n, pos int }
+	var vjobs []vjob
+	for _, n := range lens {
+		vjobs = append(vjobs, vjob{n, -1})
+		for _, p := range subPos(n) {
+			vjobs = append(vjobs, vjob{n, p})
+		}
+	}
+	sweep(fmt.Sprintf("Code 128, very long symbols (weighted sum beyond 2^31 and 2^32): %v characters '~' in code set B from the reference encoder: the valid symbol is read, and substitutions at symbol-character positions {first, 40th, last, check; thorough: 9 positions} x replacement values (quick: 7; thorough: every value) are never read as a different text", lens), len(vjobs), 1, func(l *mc.Local, i int) {
+		j := vjobs[i]
+		t := strings.Repeat("~", j.n)
+		v, err := ref.Code128Plan(t, strings.Repeat("B", j.n))
+		if err != nil {
+			panic(err)
+		}
+		v = append(v, ref.Code128Check(v))
+		if j.pos < 0 {
+			c := fcase{Kind: "code128", Vals: v, Reader: "code128", Scale: 1, Path: "row"}
+			symbolCase(l, nil, &c)
+			l.Distinct("nontrivial", fmt.Sprint("c128-very-long", j.n))
+			return
+		}
+		for _, x := range subVals(v[j.pos]) {
+			if x < 0 || x == v[j.pos] {
+				continue
+			}
+			vv := append([]int(nil), v...)
+			vv[j.pos] = x
+			c := fcase{Kind: "code128", Vals: vv, Orig: t, Reader: "code128", Scale: 1, Path: "row"}
+			symbolCase(l, nil, &c)
+		}
+	})
 	s93 := c93Symbols()
 	sweep(fmt.Sprintf("Code 93: %d reference symbols (texts of length 1..6 over native / ($) / (%%) / (/) / (+) classes), each valid and with every symbol-character position (data, C, K) x every replacement value 0..46, scale 1 and 2", len(s93)), len(s93), 1, func(l *mc.Local, i int) {
 		s := s93[i]
